@@ -26,7 +26,7 @@ RULE = ("Randomised histories against the real `garden nrepl` TCP server (a fres
 ASSUMPTIONS = ["thread interleavings inside the server are not enumerated, only perturbed (request gaps, output "
                "volume, concurrent connections, delays injected at five named points): a race that needs another "
                "interleaving may be missed",
-               "a request is given 60 s to complete before its missing `done` counts as a violation"]
+               "a request is given 120 s to complete; a missing `done` counts as a violation only if the same history misses it in two repetitions as well"]
 MANIFEST = dict(
     category="exploration",
     technique="randomised-schedule stateful testing of the real TCP server (model-checking the thread interleavings is "
@@ -136,12 +136,12 @@ def run_conn(port, ci, steps, result):
                 i = rid("clone")
                 c.send({"op": "clone", "id": i})
                 out["sent"].append({"id": i, "kind": "clone"})
-                ok = c.wait_for(lambda ms: any(m.get("id") == i and "new-session" in m for m in ms), 30)
+                ok = c.wait_msg(i, lambda m: "new-session" in m, 60)
                 if not ok:
-                    out["error"] = "clone got no new-session within 30 s"
+                    out["error"] = "timeout: clone got no new-session within 60 s"
                     return
-                for m in [m for _, m in c.snapshot()]:
-                    if m.get("id") == i and "new-session" in m:
+                for m in c.msgs_of(i):
+                    if "new-session" in m:
                         sessions.append(m["new-session"])
                 continue
             sess = sessions[st["sess"] % len(sessions)] if sessions else "none"
@@ -184,9 +184,9 @@ def run_conn(port, ci, steps, result):
                 i = rid("ls")
                 c.send({"op": "ls-sessions", "id": i})
                 out["sent"].append({"id": i, "kind": "other"})
-            elif k in ("interrupt_idle", "close") and not c.wait_for(
-                    lambda ms: set(x["id"] for x in out["sent"] if x.get("sess") == sess) <= set(N.done_ids(ms)), 60):
-                out["error"] = "requests of the session not done within 60 s (before an idle interrupt / close)"
+            elif k in ("interrupt_idle", "close") and not c.wait_done(
+                    [x["id"] for x in out["sent"] if x.get("sess") == sess], 120):
+                out["error"] = "timeout: requests of the session not done within 120 s (before an idle interrupt / close)"
                 out["msgs"] = [m for _, m in c.snapshot()]
                 return
             elif k == "interrupt_idle":
@@ -212,7 +212,7 @@ def run_conn(port, ci, steps, result):
                 c.send({"id": i, "code": "1"})
                 out["sent"].append({"id": i, "kind": "other"})
         ids = [s["id"] for s in out["sent"]]
-        c.wait_for(lambda ms: set(ids) <= set(N.done_ids(ms)), 60)
+        c.wait_done(ids, 120)
         time.sleep(0.15)
         out["msgs"] = [m for _, m in c.snapshot()]
         if c.bad:
@@ -224,7 +224,7 @@ def run_conn(port, ci, steps, result):
         c.close()
 
 
-def check(case, ctx) -> Res:
+def run_history(case, ctx) -> Res:
     d = ctx.scratch.dir()
     srv = N.Server(d, case.get("delays"))
     cls = (f"conns:{len(case['conns'])}",) + tuple("delay:" + k for k in sorted(case.get("delays") or {}))
@@ -288,6 +288,17 @@ def check(case, ctx) -> Res:
                                 f"{what}: `{s['name']}` evaluated to {vals} in a session that never defined it\n--- history\n{hist}",
                                 classes=cls)
     return Res(ok=True, nontrivial=case["nontrivial"], classes=cls)
+
+
+def check(case, ctx) -> Res:
+    res = run_history(case, ctx)
+    if res.ok or not ("gets 0 `done`" in res.signature or "timeout" in res.signature):
+        return res
+    # a request without `done` after 120 s, or a timeout while driving the history: repeat twice before it counts
+    again = [run_history(case, ctx) for _ in range(2)]
+    if all(not a.ok and a.signature == res.signature for a in again):
+        return res
+    return Res(ok=True, inconclusive=True, detail="deadline missed once, not on repetition: " + res.signature)
 
 
 def first_diff(a, b):
